@@ -406,6 +406,11 @@ def report(res, what, replay):
     known_findings.json by the integrator) are matched with the same class_expr mechanism"""
     merged = {k.get('id') for k in load_known()}
     for k in PROPOSED:
+        # a finding recorded here as FIXED suppresses nothing, even if known_findings.json still lists it as known
+        if k.get('status') == 'fixed' and common._matches(dict(k, status='known'), what, replay):
+            res.failures.append({'what': what + f' [recurrence of fixed finding {k["id"]}, fixed by {k.get("fixed_by")}]', 'replay': replay})
+            return
+    for k in PROPOSED:
         if k['id'] not in merged and k.get('status') == 'known' and common._matches(k, what, replay):
             res.known_hits.append((k, what))
             return
